@@ -35,6 +35,12 @@ class LimitGatedScheduler {
     impl_->wait();
   }
 
+  // Record the exception currently being handled in the task set (first one wins).  For closures
+  // that the task set may run inline in the scheduling thread, where nothing else catches.
+  static void captureCurrentException(ConcurrentTaskSet& tasks) {
+    tasks.trySetCurrentException();
+  }
+
  private:
   // Put the guts within a unique_ptr to enable this type to be movable.
   class Impl {
@@ -399,13 +405,23 @@ class Pipe<StageClass::kGenerator, CurStage, PipeNext> {
       // the event.
       tasks_.schedule([this, cGuard = CompletionGuard(completion_)]() {
         (void)cGuard;
-        while (!tasks_.hasException()) {
-          auto op = stage_();
-          if (!op) {
-            break;
+        // The task set may run this closure inline in execute(); an exception escaping from
+        // there would unwind pipeline() while other stages are still running.
+#if defined(__cpp_exceptions)
+        try {
+#endif
+          while (!tasks_.hasException()) {
+            auto op = stage_();
+            if (!op) {
+              break;
+            }
+            pipeNext_.execute(std::move(op.value()));
           }
-          pipeNext_.execute(std::move(op.value()));
+#if defined(__cpp_exceptions)
+        } catch (...) {
+          LimitGatedScheduler::captureCurrentException(tasks_);
         }
+#endif
       });
     }
   }
@@ -449,8 +465,16 @@ class Pipe<StageClass::kSingleStage, CurStage, SinkPipe> {
     size_t numThreads = std::min(tasks_.numPoolThreads(), StageLimits<CurStage>::limit(stage_));
     for (size_t i = 0; i < numThreads; ++i) {
       tasks_.schedule([this]() {
-        while (!tasks_.hasException() && stage_()) {
+#if defined(__cpp_exceptions)
+        try {
+#endif
+          while (!tasks_.hasException() && stage_()) {
+          }
+#if defined(__cpp_exceptions)
+        } catch (...) {
+          LimitGatedScheduler::captureCurrentException(tasks_);
         }
+#endif
       });
     }
   }
